@@ -13,7 +13,9 @@ Inductive pschema :=
 | PEnum (vals : list str)        (* string enum -> class E(str, Enum) *)
 | PArr (items : pschema)         (* items: scalar / enum / reference *)
 | PRef (c : N)                   (* $ref to / inline object schema c -> dataclass c *)
-| PSelf (c : N).                 (* $ref to the schema being generated: rendered as a quoted name *)
+| PSelf (c : N)                  (* $ref to the schema being generated: rendered as a quoted name *)
+| PMap (v : pschema).            (* object with only `additionalProperties: v` (inline, or $ref to a named map
+                                    schema): a generated wrapper class around dict[str, v] *)
 
 Record prop := { p_name : str; p_required : bool; p_nullable : bool; p_schema : pschema }.
 Record oschema := { s_id : N; s_props : list prop }.
@@ -52,6 +54,7 @@ Fixpoint resolve (p : pschema) : ty :=
   | PArr items => TList (resolve items)
   | PRef c => TData c
   | PSelf c => TFwd c
+  | PMap v => TWrap (resolve v)
   end.
 
 (* ---------- property order: sorted(props, key=(name not in required, name)) ---------- *)
@@ -140,13 +143,13 @@ End Gen.
 Fixpoint ty_has_unhooked (T : ty) : bool :=
   match T with
   | TUuid | TTime => true
-  | TList X | TDict X | TOpt X => ty_has_unhooked X
+  | TList X | TDict X | TOpt X | TWrap X => ty_has_unhooked X
   | _ => false
   end.
 Fixpoint ty_has_fwd (T : ty) : bool :=
   match T with
   | TFwd _ => true
-  | TList X | TDict X | TOpt X => ty_has_fwd X
+  | TList X | TDict X | TOpt X | TWrap X => ty_has_fwd X
   | _ => false
   end.
 Definition guard_F03a (ct : list cls) : bool :=
